@@ -43,6 +43,10 @@ def check(run):
             _wk.rule_keys(run, "C11.5.options-wire-keys", F, cfg, _wk.OPTIONS, _wk.OPTIONS_VARIANTS,
                           "Options passed as data (the JS bindings deserialize ParseOptions) would otherwise fall back to "
                           "the defaults: rule_types = All loads the rules a network-only / cosmetic-only load must not"), 8))
+        if cfg == "A":
+            from . import C18 as _C18g
+            b182 = run.borrow("C18", only=r"pairwise-permission|injection-mask", why="ParseOptions::permissions is an option of ONE list: its rules are resolved with that mask, not with the union of all lists that have a rule for the page")
+            run.guard("C11.via.C18.2.gate-provenance", cfg, lambda: _C18g.rule_gate(b182, F, cfg))
 
 
 def rule_independence(run, F, cfg):
